@@ -56,6 +56,8 @@ impl Thread {
 /// See [`scope`] for details.
 pub struct Scope<'scope, 'env: 'scope> {
     num_running_threads: AtomicUsize,
+    // Whether `main_task` is blocked at the end of `scope`, waiting for the scoped threads
+    main_task_waiting: AtomicBool,
     main_task: TaskId,
     scope: PhantomData<&'scope mut &'scope ()>,
     env: PhantomData<&'env mut &'env ()>,
@@ -96,7 +98,13 @@ impl<'scope> Scope<'scope, '_> {
 
                 finished.store(true, Ordering::Relaxed);
 
-                if self.num_running_threads.fetch_sub(1, Ordering::Relaxed) == 1 {
+                // Only wake the owner of the scope if it is waiting for the end of the scope. It can
+                // also be blocked in something else inside the scope body (e.g. joining one of the
+                // scoped threads, whose thread-local destructors are still running), and must not
+                // be released from that.
+                if self.num_running_threads.fetch_sub(1, Ordering::Relaxed) == 1
+                    && self.main_task_waiting.load(Ordering::Relaxed)
+                {
                     ExecutionState::with(|s| s.get_mut(self.main_task).unblock());
                 }
 
@@ -127,6 +135,7 @@ where
 {
     let scope = Scope {
         num_running_threads: AtomicUsize::new(0),
+        main_task_waiting: AtomicBool::new(false),
         main_task: ExecutionState::with(|s| s.current().id()),
         env: PhantomData,
         scope: PhantomData,
@@ -136,6 +145,7 @@ where
 
     if scope.num_running_threads.load(Ordering::Relaxed) != 0 {
         tracing::info!("thread blocked, waiting for completion of scoped threads");
+        scope.main_task_waiting.store(true, Ordering::Relaxed);
         ExecutionState::with(|s| s.current_mut().block(false));
         thread::switch();
     }
